@@ -340,6 +340,9 @@ func (sc SimpleColumn) WriteTo(store ReadOnlyFactStore, w io.Writer) error {
 // ReadPred reads matching facts for a single predicate with arity > 0.
 // len(filter) must match p.Arity.
 func (SimpleColumn) readPred(scanner *bufio.Scanner, p ast.PredicateSym, numFacts int, filter []ast.BaseTerm, cb func(args []ast.BaseTerm) error) error {
+	if numFacts < 0 {
+		return fmt.Errorf("pred %v: negative number of facts %d: %w", p, numFacts, ErrWrongArgument)
+	}
 	args := make([][]ast.BaseTerm, numFacts)
 	numSkip := 0
 	skip := make([]bool, numFacts)
@@ -357,6 +360,9 @@ func (SimpleColumn) readPred(scanner *bufio.Scanner, p ast.PredicateSym, numFact
 				continue
 			}
 			text := scanner.Text()
+			if text == "" {
+				return fmt.Errorf("empty line pred %v column %d fact %d: %w", p, j, i, ErrCouldNotRead)
+			}
 			if text[0] == '/' {
 				var err error
 				text, err = percentUnescape(text)
